@@ -866,6 +866,7 @@ func c08AssocOne(r *Result, db *gorm.DB, c c08AssocCase, sub int64) {
 			}
 		}
 		if model, ok := c08DeleteAssocModel(arm, c.Ctx == "propagate", un); ok && gone+marked > 0 {
+			r.CorrCompared++
 			r.Case("assoc.tie", fmt.Sprint(arm, c.Ctx == "propagate", un, rel.Name), true)
 			r.H("assoc.tie", fmt.Sprintf("%s propagate=%v unscoped=%v -> nested Delete unscoped=%v", arm, c.Ctx == "propagate", un, model))
 			if (model && marked > 0) || (!model && gone > 0) {
@@ -995,6 +996,19 @@ func c08ProbeF33(r *Result) {
 	defer sqlDB.Close()
 	c08AssocSeed(db, rand.New(rand.NewSource(1)))
 	c08AssocOne(r, db, c08AssocCase{Seed: 1, N: -1, Rel: "Teams", Op: "delete-owner", DBUn: "before-model", AssocUn: true, Owners: []uint{1}, Ctx: "tx"}, 1)
+	// … and every arm x Unscoped x PropagateUnscoped of DeleteBeforeAssociations once per run (all branches of the model behind
+	// the tie assoc.tie; the ordinary oracle judges each case)
+	dbP, _, sqlP := OpenRec(&gorm.Config{NowFunc: fixedNowFunc, PropagateUnscoped: true})
+	defer sqlP.Close()
+	c08AssocSeed(dbP, rand.New(rand.NewSource(1)))
+	for _, rel := range []string{"Pets", "Den", "Notes", "Teams"} {
+		for _, un := range []string{"", "before-model", "session"} {
+			for o := uint(1); o <= 3; o++ {
+				c08AssocOne(r, db, c08AssocCase{Seed: 1, N: -1, Rel: rel, Op: "delete-owner", DBUn: un, AssocUn: true, Owners: []uint{o}, Ctx: "tx"}, 1)
+				c08AssocOne(r, dbP, c08AssocCase{Seed: 1, N: -1, Rel: rel, Op: "delete-owner", DBUn: un, AssocUn: true, Owners: []uint{o}, Ctx: "propagate"}, 1)
+			}
+		}
+	}
 }
 
 func init() {
